@@ -3,6 +3,7 @@ package gvc
 import (
 	"encoding/json"
 	"fmt"
+	"go/types"
 	"os"
 	"os/exec"
 	"path/filepath"
@@ -60,11 +61,11 @@ func (w *World) PropertyFunctions(prop string) (tagged []string, all []string) {
 	// streams / protocols tagged with the property: every function or closure bound to them is tagged
 	taggedProto := map[string]bool{}
 	for _, c := range w.CS.Order {
-		if c.Kind == "stream" || c.Kind == "protocol" {
+		if c.Kind == "stream" || c.Kind == "protocol" || c.Kind == "channel" {
 			for _, cl := range append(append([]*Clause{}, c.Requires...), c.Ensures...) {
 				for _, p := range cl.Props {
 					if p == prop {
-						taggedProto[strings.TrimPrefix(strings.TrimPrefix(c.Key, "stream."), "protocol.")] = true
+						taggedProto[strings.TrimPrefix(strings.TrimPrefix(strings.TrimPrefix(c.Key, "stream."), "protocol."), "chan.")] = true
 					}
 				}
 			}
@@ -79,6 +80,11 @@ func (w *World) PropertyFunctions(prop string) (tagged []string, all []string) {
 		}
 		for _, p := range c.ParamProto {
 			if taggedProto[p] {
+				tag[c.Key] = true
+			}
+		}
+		for _, cd := range c.Carries {
+			if taggedProto[cd.Proto] {
 				tag[c.Key] = true
 			}
 		}
@@ -150,6 +156,9 @@ func (w *World) PropertyFunctions(prop string) (tagged []string, all []string) {
 		}
 		for callee := range w.callees(fi) {
 			visit(callee)
+			for _, ik := range w.implementerKeys(callee) {
+				visit(ik)
+			}
 			// helpers without contracts are inlined: follow their callees too
 			if w.CS.ByKey[callee] == nil {
 				if hf := w.Funcs[callee]; hf != nil {
@@ -186,9 +195,55 @@ func (w *World) PropertyFunctions(prop string) (tagged []string, all []string) {
 			visit(c.Key)
 		}
 	}
+	// stream refinements: verified with every property whose cone produces or consumes one of the two streams
+	used := map[string]bool{}
+	for k := range seen {
+		if c := w.CS.ByKey[k]; c != nil {
+			if c.Yields != "" {
+				used[c.Yields] = true
+			}
+			for _, p := range c.ParamProto {
+				used[p] = true
+			}
+		}
+	}
+	for _, u := range w.RefinementUnits() {
+		i := strings.Index(u, "/refines#")
+		if used[strings.TrimPrefix(u[:i], "stream.")] || used[u[i+len("/refines#"):]] {
+			seen[u] = true
+		}
+	}
 	tagged = sortedKeys(tag)
 	all = sortedKeys(seen)
 	return
+}
+
+// implementerKeys: for the key of an interface method of the repository (pkg.Iface.method), the keys of that method on
+// the implementing types, so that the cone of a property follows dynamic dispatch.
+func (w *World) implementerKeys(key string) []string {
+	parts := strings.Split(key, ".")
+	if len(parts) != 3 {
+		return nil
+	}
+	var out []string
+	for _, p := range w.Main {
+		if p.Name != parts[0] {
+			continue
+		}
+		tn, ok := p.Types.Scope().Lookup(parts[1]).(*types.TypeName)
+		if !ok {
+			continue
+		}
+		iface, ok := tn.Type().Underlying().(*types.Interface)
+		if !ok {
+			continue
+		}
+		x := &Exec{W: w}
+		for _, n := range x.implementers(iface, parts[2], p.Types) {
+			out = append(out, parts[0]+"."+n.Obj().Name()+"."+parts[2])
+		}
+	}
+	return out
 }
 
 // AssumedContracts lists contracts that are used but not verified.
